@@ -37,6 +37,11 @@ THEOREMS = [
     "Verif.C03.rows_below_min_witness",
     "Verif.C03.pixel_ts_general",
     "Verif.C03.pixel_ts_no_overflow",
+    "Verif.C03.deltaTs_bounds",
+    "Verif.C03.deltaTs_values",
+    "Verif.C03.line_range_exact_code",
+    "Verif.C03.frame_range_exact_code",
+    "Verif.C03.sum_over_ranges_eq_image_code",
 ]
 RULE = (
     "corpus (F11 input, split-mode mean witness) + malformed stream (empty wave, nothing used, no boundary, interior "
@@ -244,6 +249,15 @@ def impl(case):
         if timestamp_mean is None:
             return [UNSEEN]
         return [_try(lambda: enc_list(timestamp_mean(np.array(case["rows"], dtype=np.int64).reshape(len(case["rows"]), case["w"]), axis=1)))]
+    if op == "delta":
+        # the delta the code adds, read from the public API: a kymograph of one one-sample pixel reports the range
+        # [start, start + delta)
+        def delta():
+            k = build({"op": "kymo", "start": 0, "dt": case["dt"], "P": 1}, [2], [1])
+            (t0, t1), = k.line_timestamp_ranges()
+            return f"{int(t1) - int(t0)}"
+
+        return [_try(delta)]
     iw = wave_of(case)
     counts = counts_of(case, iw)
     cstart, cdata = channel_of(case, counts)
@@ -298,6 +312,8 @@ def ops(case):
         return [f"c03.mean {enc_list(case['a'])}"]
     if op == "meanrows":
         return [f"c03.meanrows {case['w']} [" + ";".join(",".join(str(x) for x in r) for r in case["rows"]) + "]"]
+    if op == "delta":
+        return [f"c03.delta {case['dt']}"]
     iw = wave_of(case)
     counts = counts_of(case, iw)
     cstart, cdata = channel_of(case, counts)
@@ -352,6 +368,9 @@ def agree(case, i, ia, ma):
     op = case["op"]
     if ia == UNSEEN:
         return True  # a private observation that could not be made says nothing about the code
+    if op == "delta":
+        soft, hard = ma.split(" ")  # exact binary64 model (what the theorems are about), Lean's hardware Float
+        return ia == soft and soft == hard
     if op == "mean":
         return ia == ma.split(" ")[0]
     if op == "meanrows":
@@ -473,6 +492,13 @@ def oracle(case, ia):
         return None
     if op == "kmean":
         return oracle_kmean(case, ia[0])
+    if op == "delta":
+        # a range [first sample, last sample + delta) contains the last sample and not the next one iff 1 <= delta <= dt
+        try:
+            d = int(ia[0])
+        except ValueError:
+            return f"delta: implementation raised {ia[0]}"
+        return None if 1 <= d <= case["dt"] else f"delta: range stops {d} ns after its last sample (dt = {case['dt']})"
     if op == "mean":
         a = case["a"]
         if a and max(a) - min(a) > I64MAX:
@@ -641,6 +667,8 @@ def nontrivial(case, ia):
         return False
     if op == "kmean":
         return case["geom"]["k"] >= 2 and len(structure(case, wave_of(case))) > 0
+    if op == "delta":
+        return case["dt"] >= 2
     if op == "mean":
         return len(set(case["a"])) >= 2
     if op == "meanrows":
@@ -665,6 +693,8 @@ def tags(case, r):
 
 
 def shrink(case):
+    if case["op"] == "delta":
+        return
     if case["op"] in ("mean",):
         a = case["a"]
         for i in range(len(a)):
@@ -838,6 +868,19 @@ def cases(tier, rng):
         for dt in (1, 55):                                             # late starts: the last sample is 2^63-1-dt
             yield kmean_case("small-scope", I64MAX - n * dt, dt, lead, k, P, dead, lines)
 
+    # ---- delta = int(1e9 / sample_rate): every period of a small scope, boundary periods, random periods
+    for dt in range(1, 1501 if quick else 20001):
+        yield {"stream": "small-scope", "op": "delta", "dt": dt}
+    bnd = {10**e + d for e in range(1, 16) for d in (-1, 0, 1)} | {2**e + d for e in range(1, 50) for d in (-1, 0, 1)}
+    bnd |= {12800, 62500000, 10**8, 10**8 - 55, 10**15}
+    for dt in sorted(d for d in bnd if 1 <= d <= 10**15):
+        yield {"stream": "small-scope", "op": "delta", "dt": dt}
+    r = rng.fork("c03-delta")
+    for i in range(600 if quick else 20000):
+        sub = r.fork(i)
+        dt = sub.choice([sub.randint(1, 10**8), int(sub.loguniform(1, 10**8)), sub.randint(1, 10**5) * 55, int(sub.loguniform(10**8, 10**15))])
+        yield {"stream": "random-delta", "op": "delta", "dt": max(1, dt), "subseed": i}
+
     # ---- random regular waves
     N = 1000 if quick else 20000
     r = rng.fork("c03-waves")
@@ -952,7 +995,7 @@ def extra_coverage(results):
     ksplit = {"split": 0, "no-split": 0, "split-below-floor": 0}
     unseen = 0
     sizes = []
-    rows_splits, pixel_splits = {}, {}
+    rows_splits, pixel_splits, delta_op = {}, {}, {}
     for r in results:
         c = r["case"]
         m0 = r["model"][0].split(" ") if r.get("model") else []
@@ -985,6 +1028,13 @@ def extra_coverage(results):
                 shape["single" if len(px) <= block else "multi"] += 1
                 shape["truncated" if len(px) % block else "complete"] += 1
             dts["delta=dt-1" if c["dt"] in BAD_DT or int(1e9 / (1e9 / c["dt"])) != c["dt"] else "delta=dt"] += 1
+        elif c["op"] == "delta":
+            try:
+                dk = "delta=dt" if int(r["impl"][0]) == c["dt"] else "delta=dt-1" if int(r["impl"][0]) == c["dt"] - 1 else "other"
+            except ValueError:
+                dk = "error"
+            dkey = ("<=1e8: " if c["dt"] <= 10**8 else ">1e8: ") + dk
+            delta_op[dkey] = delta_op.get(dkey, 0) + 1
         elif c["op"] == "mean" and c["a"]:
             a = c["a"]
             split["split" if (max(a) - min(a)) * len(a) > I64MAX else "no-split"] += 1
@@ -995,6 +1045,7 @@ def extra_coverage(results):
         "acquisition_shapes": shape,
         "mean_modes": split,
         "kmean_modes": ksplit,
+        "delta_op_outcomes": delta_op,
         "meanrows_splits_per_row": dict(sorted(rows_splits.items(), key=lambda kv: int(kv[0]))),
         "pixel_mean_splits_per_pixel": dict(sorted(pixel_splits.items(), key=lambda kv: int(kv[0]))),
         "private_ties": {
